@@ -16,6 +16,34 @@ pub uninterp spec fn static_no_faults() -> bool;
 pub uninterp spec fn magiclink_body(body: Seq<u8>) -> bool;
 /// (base, sub-path) names a magic-link of the handle's procfs (fd/N, exe, cwd, root, ns/*), not an ordinary symlink
 pub uninterp spec fn names_magiclink(subpath: Seq<u8>) -> bool;
+pub uninterp spec fn fresh_kernel_fd(fd: int) -> bool;   // returned by a successful syscall just now
+/// G2: `OwnedFd::from_raw_fd(n)` outside the syscall layer: taking ownership of a raw number is only sound for a descriptor the
+/// kernel has just handed to this very call
+#[verifier::external_body]
+pub fn owned_from_raw_fd_shim(fd: i32) -> (r: OwnedFd)
+    requires fd >= 0, fresh_kernel_fd(fd as int)                     // [C11+C17.from_raw_fd.only_a_descriptor_the_kernel_just_returned]
+    ensures raw_of(r.id()) == fd as int
+{ unimplemented!() }
+#[verifier::external_body]
+pub fn file_from_raw_fd_shim(fd: i32) -> (r: File)
+    requires fd >= 0, fresh_kernel_fd(fd as int)                     // [C11+C17.from_raw_fd.only_a_descriptor_the_kernel_just_returned]
+    ensures raw_of(r.id()) == fd as int
+{ unimplemented!() }
+impl File {
+    /// std: fstat of the descriptor
+    #[verifier::external_body]
+    pub fn metadata(&self) -> (r: Result<StdMetadataOpaque, IOError>) { unimplemented!() }
+    #[verifier::external_body]
+    pub fn into_raw_fd(self) -> (r: i32) ensures r as int == raw_of(self.id()) { unimplemented!() }
+}
+#[verifier::external_body]
+pub struct StdMetadataOpaque { _p: () }
+/// G1: `std::mem::forget(x)`.  Forgetting an owner of a descriptor is how a lent descriptor gets wrapped in an owning type
+/// "temporarily"; every early return between the wrap and the forget closes the caller's descriptor.  Not used anywhere in
+/// the library; a use is an obligation that cannot be discharged.
+pub fn mem_forget_shim<T>(t: T)
+    requires false,            // [C11+C17.mem_forget.descriptor_owners_are_never_forgotten]
+{}
 /// what rustix accepts as a directory descriptor: AT_FDCWD or a non-negative number
 pub open spec fn valid_dirfd(id: int) -> bool { raw_of(id) == libc::AT_FDCWD as int || raw_of(id) >= 0 }
 /// the descriptor has FD_CLOEXEC (C05/C11: every descriptor the library creates must have it)
